@@ -33,6 +33,90 @@ pub fn scenario_c04(seed: u64, rep: &mut Report) {
     }
 }
 
+/// Contacts whose key type this implementation cannot do a handshake with (ed25519): a request
+/// to such a contact that is challenged must still end with exactly one outcome, and so must the
+/// requests queued behind it (wire rig, crafted WHOAREYOU).
+pub fn scenario_unsupported_key(seed: u64, rep: &mut Report) {
+    use crate::peer::codec_ref;
+    use crate::rig::r1::{runtime, v4, RigConfig, WireRig};
+    use discv5::enr::{ed25519_dalek, CombinedKey};
+    use discv5::verif::{HandlerIn, HandlerOut, Request, RequestBody};
+    let rt = runtime(seed);
+    rt.block_on(async {
+        let mut rng = Rng::new(seed ^ 0xED25);
+        let retries = 1 + rng.below(3) as u8;
+        let rig = WireRig::start(&mut rng, RigConfig { request_retries: retries, ..Default::default() }).await;
+        let vid = rig.victim_id();
+        let key = CombinedKey::Ed25519(ed25519_dalek::SigningKey::from_bytes(&rng.array()));
+        let addr = v4(10, 3, 7, 1 + rng.below(200) as u8, 9700);
+        let enr = {
+            let mut b = discv5::Enr::builder();
+            if let std::net::SocketAddr::V4(a) = addr {
+                b.ip4(*a.ip());
+                b.udp4(a.port());
+            }
+            b.build(&key).expect("ed25519 record")
+        };
+        let peer_id: [u8; 32] = enr.node_id().raw();
+        let contact = discv5::NodeContact::try_from_enr(enr, discv5::IpMode::Ip4).expect("contactable");
+        let n = 1 + rng.usize(4);
+        let mut ids: Vec<Vec<u8>> = Vec::new();
+        for k in 0..n {
+            let id = vec![0xED, k as u8];
+            let body = match rng.below(3) {
+                0 => RequestBody::Ping { enr_seq: 1 },
+                1 => RequestBody::FindNode { distances: vec![256] },
+                _ => RequestBody::Talk { protocol: b"verif".to_vec(), request: vec![k as u8] },
+            };
+            rig.submit(HandlerIn::Request(contact.clone(), Box::new(Request { id: discv5::RequestId(id.clone()), body })));
+            ids.push(id);
+        }
+        rig.settle().await;
+        rep.evaluations += 1;
+        rep.count("unsupported_key_scenarios");
+        // the first request travels as a random packet: someone at that address challenges it
+        let challenged = rng.chance(3, 4);
+        if challenged {
+            let nonce = rig.take_sent().iter().find_map(|s| {
+                let (to, bytes) = &s.v;
+                if *to != addr {
+                    return None;
+                }
+                codec_ref::decode(&peer_id, bytes).ok().map(|d| d.nonce)
+            });
+            if let Some(nonce) = nonce {
+                if rng.bool() {
+                    rig.sleep(rig.cfg_request_timeout / 3).await;
+                }
+                let (w, _) = crate::peer::peersim::whoareyou_packet(&mut rng, &vid, nonce, 0);
+                rig.inject(addr, w);
+                rig.settle().await;
+                rep.count("challenges_to_unsupported_key_requests");
+            }
+        }
+        // every timer runs out
+        for _ in 0..(retries as u32 + 3) {
+            rig.sleep(rig.cfg_request_timeout).await;
+            rig.settle().await;
+        }
+        let mut outcomes: std::collections::HashMap<Vec<u8>, usize> = std::collections::HashMap::new();
+        for e in rig.take_events() {
+            match e.v {
+                HandlerOut::RequestFailed(id, _) => *outcomes.entry(id.0).or_default() += 1,
+                HandlerOut::Response(_, r) => *outcomes.entry(r.id.0.clone()).or_default() += 1,
+                _ => {}
+            }
+        }
+        for id in &ids {
+            let k = outcomes.get(id).copied().unwrap_or(0);
+            if k != 1 {
+                rep.violation(if k == 0 { "C04:no-outcome" } else { "C04:more-than-one-outcome" }, format!("request {} to a contact with an ed25519 key ended with {k} outcomes (challenged: {challenged})", crate::util::hx(id)), json!({"scenario_seed": seed.to_string(), "kind": "unsupported-key", "requests": n, "challenged": challenged}));
+            }
+        }
+        rep.fingerprint(&("unsupported-key", n, challenged, retries));
+    });
+}
+
 pub fn run_c04(p: &Params) -> Report {
     let mut rep = Report::new("C04");
     if let Some(r) = &p.replay {
@@ -41,13 +125,21 @@ pub fn run_c04(p: &Params) -> Report {
         }
     }
     if let Some(seed) = replay_seed(p) {
-        scenario_c04(seed, &mut rep);
+        if p.replay.as_ref().map(|r| r["replay"]["kind"] == "unsupported-key").unwrap_or(false) {
+            scenario_unsupported_key(seed, &mut rep);
+        } else {
+            scenario_c04(seed, &mut rep);
+        }
         return rep;
     }
     let n = p.budget(16_000, 800_000);
     for i in 0..n {
         let seed = p.shard_seed(0x04_0000 + i);
         crate::util::guarded(&mut rep, seed, |rep| scenario_c04(seed, rep));
+        if i % 16 == 0 {
+            let seed = p.shard_seed(0xED25_0000 + i);
+            crate::util::guarded(&mut rep, seed, |rep| scenario_unsupported_key(seed, rep));
+        }
     }
     // full stack: every call of the public API ends with a result or an error
     super::sys::run_mixed(p, super::sys::Focus::C04, 0x5C04_0000, 1600, 100_000, &mut rep);
